@@ -37,10 +37,27 @@ def read_expect(prop):
 def run_controls(ctx, prop, log=None):
     from .report import Ctx
     pairs = read_expect(prop)
-    ctx.rule("positive-control", "each micro-patch in controls/%s applied to a scratch copy of /repo makes the rule report "
-             "the expected violation key (the check is shown to be able to fire)" % prop)
-    if not pairs:
-        ctx.note("no positive controls registered for %s" % prop)
+    ctx.rule("positive-control", "each micro-patch in controls/%s (and each kept independently seeded change of this property "
+             "that the check is recorded to catch) applied to a scratch copy of /repo makes the rule report the expected "
+             "violation key (the check is shown to be able to fire)" % prop)
+    ctx.rule("negative-control", "with all behaviour-preserving refactors of controls/benign/ applied together to a scratch copy "
+             "of /repo the rule reports no violation (the check is shown to stay silent on equivalent code)")
+    # independently seeded changes recorded as detected by this property's own check
+    mp = os.path.join(_facts.VERIF, "seeded", "MATRIX.json")
+    if os.path.exists(mp):
+        import json
+        for sid, ent in sorted(json.load(open(mp)).items()):
+            if ent.get("check") == prop and ent.get("status") == "detected" and ent.get("keys"):
+                patch = os.path.join(_facts.VERIF, "seeded", sid, "patch.diff")
+                if os.path.exists(patch):
+                    rx = "^(%s)$" % "|".join(re.escape(k) for k in ent["keys"])
+                    pairs.append((patch, rx))
+    benign = sorted(p for d in sorted(os.listdir(os.path.join(_facts.VERIF, "controls", "benign")))
+                    for p in [os.path.join(_facts.VERIF, "controls", "benign", d, f)
+                              for f in sorted(os.listdir(os.path.join(_facts.VERIF, "controls", "benign", d))) if f.endswith(".diff")]
+                    ) if os.path.isdir(os.path.join(_facts.VERIF, "controls", "benign")) else []
+    if not pairs and not benign:
+        ctx.note("no controls registered for %s" % prop)
         return
     wt = "/var/tmp/gmxsa-ctl-%s-%d" % (prop, os.getpid())
     fd = os.path.join(_facts.CACHE, "facts-ctl-%s-%d" % (prop, os.getpid()))
@@ -54,8 +71,36 @@ def run_controls(ctx, prop, log=None):
             _git(["add", "-A"], wt)
             _git(["-c", "user.email=x@x", "-c", "user.name=x", "commit", "-qm", "wt"], wt)
         mod = importlib.import_module("gmxsa.rules." + prop)
+        # ---- negative control: all benign refactors together
+        if benign:
+            applied = 0
+            for bp in benign:
+                r = subprocess.run(["git", "apply", "--whitespace=nowarn", bp], cwd=wt, stdout=subprocess.PIPE,
+                                   stderr=subprocess.STDOUT, text=True)
+                if r.returncode == 0:
+                    applied += 1
+            try:
+                try:
+                    _facts.ensure(repo=wt, facts_dir=fd)
+                    from . import report as _report
+                    for k in [k for k in _report._PROG_CACHE if k[0] == fd]:
+                        del _report._PROG_CACHE[k]
+                    sub = Ctx(prop, "quick", 0, facts_dir=fd, scratch=True)
+                    sub.guard("module", mod.run, sub)
+                    keys = [v["key"] for v in sub.violations]
+                    ctx.ob("negative-control:benign-refactors", not keys and applied > 0,
+                           "%d/%d behaviour-preserving refactors applied together: rule reported %d violation(s) %s" % (
+                               applied, len(benign), len(keys), keys[:6]), where="controls/benign", detail={"applied": applied})
+                except SystemExit as e:
+                    ctx.ob("negative-control:benign-refactors", False, "benign refactors do not compile / extract: %s" % e,
+                           where="controls/benign")
+            finally:
+                _git(["checkout", "-q", "--", "."], wt, check=False)
+                _git(["clean", "-fdq"], wt, check=False)
         for patch, rx in pairs:
             name = os.path.basename(patch)
+            if "/seeded/" in patch:
+                name = "seeded/" + os.path.basename(os.path.dirname(patch))
             r = subprocess.run(["git", "apply", "--whitespace=nowarn", patch], cwd=wt, stdout=subprocess.PIPE,
                                stderr=subprocess.STDOUT, text=True)
             if r.returncode != 0:
